@@ -260,6 +260,9 @@ def run(chk, prog, tier):
     chk.guard('getter table', check_getter, chk, prog, env, model)
     chk.guard('deleter', check_deleter, chk, prog, env, model)
     chk.guard('dispatch', check_dispatch, chk, prog, env, model)
+    from props import c07
+    chk.guard('JSON setter flags', c07.check_loader_flags, chk, prog, model, rulename='C15.loader-flags', units=('libjwt/jwt-setget.c',),
+              allow_any=False)
     chk.sample({'cell': 'set type=JSON name="x" exists=1 replace=1 parse=fails', 'oracle': 'INVALID, no mutation'})
     chk.assumptions += ['jansson\'s map semantics (what set/del/update do to the object) and therefore sequences of operations are NOT decided; '
                         'only each operation\'s decision structure']
